@@ -118,6 +118,17 @@ ADDED['C13'] += ' No re-raised panic (resume_unwind) is reachable from the worke
 ADDED['C14'] += ' In a running session an index is rebuilt from the blob file only on the Err of loading the index file.'
 ADDED['C16'] += ' Every ok return of the recovery / migration driver passes the creation of the output and the write of its header; the sequential index loader groups headers by key lookup, never by map position.'
 
+ADDED['C04'] += ' An index file is built into an emptied or absent file (IoDriver::create does not truncate).'
+ADDED['C08'] += ' (D8) every WritableDataCreator builds its result from the offset reserved for it inside the append closure.'
+ADDED['C14'] += ' The offset a record is stamped with is the one its own non-cancellable closure reserved.'
+ADDED['C06'] += ' The non-quarantine validation error BlobVersion is raised only after the magic-byte check passed.'
+ADDED['C10'] += ' CombinedFilter add / clear reach every component on every path; the filter a storage reports for itself is None or built from the closed-blob root filter.'
+ADDED['C15'] += ' records_count_in_active_blob answers Some only where it saw an active blob.'
+ADDED['C16'] += ' Every tool loop asks is_eof() before each read_record; with skipping requested a record-level validation error always leads on to the next record.'
+ADDED['C13'] += ' A failed index load ends in clear() + successful regeneration before the blob is handed on.'
+ADDED['C09'] += ' The reused buffer of the on-disk walks is resized before every exact read.'
+ADDED['C17'] += ' Metadata equality is decided on decoded maps, never on stored bytes.'
+
 for _k, _v in ADDED.items():
     _t = CHECKS[_k]
     CHECKS[_k] = (_t[0] + _v, _t[1], _t[2])
